@@ -692,7 +692,8 @@ impl IterState {
     /// Skip all characters up to first space symbol or end-of-input
     #[inline]
     fn skip_eq_value(&self, slice: &[u8], offset: usize) -> Option<usize> {
-        let mut iter = (offset..).zip(slice[offset..].iter());
+        // `offset` points to the `=`, the value is searched after it
+        let mut iter = (offset + 1..).zip(slice[offset + 1..].iter());
 
         // Skip all up to the quote and get the quote type
         let quote = match iter.find(|(_, &b)| !is_whitespace(b)) {
@@ -718,10 +719,10 @@ impl IterState {
         match iter.find(|(_, &b)| b == quote) {
             // Input: `    key  =  "   "`
             //                         ^
-            Some((e, b'"')) => Some(e),
+            Some((e, b'"')) => Some(e + 1),
             // Input: `    key  =  '   '`
             //                         ^
-            Some((e, _)) => Some(e),
+            Some((e, _)) => Some(e + 1),
 
             // Input: `    key  =  "   `
             // Input: `    key  =  '   `
